@@ -477,11 +477,26 @@ instantiate(const CPPTemplateParameterList *actual_params,
     scope = (CPPScope *)this;
 
   } else {
+    // A template that names another instantiation of itself with no
+    // specialization to stop at (F<N> using F<N-1>) would otherwise be
+    // instantiated until the stack runs out.  Compilers bound this depth too.
+    static const int max_instantiation_depth = 200;
+    static int instantiation_depth = 0;
+    if (instantiation_depth >= max_instantiation_depth) {
+      if (error_sink != nullptr) {
+        error_sink->error("Template instantiation depth exceeds maximum for scope " +
+                          get_local_name());
+      }
+      return this_scope;
+    }
+
     CPPNameComponent name = _name;
     name.set_templ(new CPPTemplateParameterList(*actual_params));
     // scope = new CPPScope(current_scope, name, V_public);
     scope = new CPPScope(_parent_scope, name, V_public);
+    ++instantiation_depth;
     copy_substitute_decl(scope, subst, global_scope);
+    --instantiation_depth;
 
     // Also define any new template parameter types, in case we "instantiated"
     // this scope with another template parameter.
